@@ -1,6 +1,7 @@
 package main
 
 import (
+	"math"
 	"fmt"
 	"go/constant"
 	"go/token"
@@ -295,6 +296,8 @@ func rebuild(t *Term, a []*Term) *Term {
 		return SExt(a[0], t.W)
 	case "uf":
 		return UF(t.Name, t.W, a...)
+	case "fp":
+		return FP(t.Name, t.W, a...)
 	}
 	panic("rebuild " + t.Op)
 }
@@ -570,6 +573,10 @@ func constVal(c *ssa.Const) Value {
 		return constant.StringVal(c.Value)
 	}
 	if isFloat(t) {
+		if b, ok := t.Underlying().(*types.Basic); ok && (b.Kind() == types.Float64 || b.Kind() == types.UntypedFloat) {
+			f, _ := constant.Float64Val(constant.ToFloat(c.Value))
+			return FloatV{T: BVu(math.Float64bits(f), 64)}
+		}
 		return FloatV{}
 	}
 	panic(fmt.Sprintf("const of type %v unsupported", t))
@@ -658,14 +665,40 @@ func (e *Engine) binop(st *State, op token.Token, xt types.Type, a, b Value) Val
 		}
 		panic("string op " + op.String())
 	}
+	if fa, ok := a.(FloatV); ok {
+		fb, ok2 := b.(FloatV)
+		if !ok2 || fa.T == nil || fb.T == nil {
+			e.unsupported(st, "floating point arithmetic (only float64 is encoded)")
+		}
+		switch op {
+		case token.ADD:
+			return FloatV{T: FP("fp.add", 64, fa.T, fb.T)}
+		case token.SUB:
+			return FloatV{T: FP("fp.sub", 64, fa.T, fb.T)}
+		case token.MUL:
+			return FloatV{T: FP("fp.mul", 64, fa.T, fb.T)}
+		case token.QUO:
+			return FloatV{T: FP("fp.div", 64, fa.T, fb.T)}
+		case token.LSS:
+			return FP("fp.lt", 0, fa.T, fb.T)
+		case token.LEQ:
+			return FP("fp.le", 0, fa.T, fb.T)
+		case token.GTR:
+			return FP("fp.lt", 0, fb.T, fa.T)
+		case token.GEQ:
+			return FP("fp.le", 0, fb.T, fa.T)
+		case token.EQL:
+			return FP("fp.eq", 0, fa.T, fb.T)
+		case token.NEQ:
+			return Not(FP("fp.eq", 0, fa.T, fb.T))
+		}
+		e.unsupported(st, "floating point operator "+op.String())
+	}
 	switch op {
 	case token.EQL:
 		return eqValue(a, b)
 	case token.NEQ:
 		return Not(eqValue(a, b))
-	}
-	if _, ok := a.(FloatV); ok {
-		e.unsupported(st, "floating point arithmetic")
 	}
 	x, ok1 := a.(*Term)
 	y, ok2 := b.(*Term)
@@ -790,14 +823,36 @@ func (e *Engine) convert(st *State, from, to types.Type, v Value) Value {
 			return string(rune(x.U64()))
 		}
 		if isFloat(to) {
-			return FloatV{}
+			if b, ok := to.Underlying().(*types.Basic); !ok || b.Kind() != types.Float64 {
+				return FloatV{}
+			}
+			x := v.(*Term)
+			if sf {
+				return FloatV{T: FP("fp.s2f", 64, SExt(x, 64))}
+			}
+			return FloatV{T: FP("fp.u2f", 64, ZExt(x, 64))}
 		}
 	}
 	if isFloat(from) {
 		if isFloat(to) {
+			if fb, ok := from.Underlying().(*types.Basic); ok {
+				if tb, ok := to.Underlying().(*types.Basic); ok && fb.Kind() != tb.Kind() && !(fb.Kind() == types.UntypedFloat || tb.Kind() == types.UntypedFloat) {
+					return FloatV{} // float32 <-> float64: not encoded
+				}
+			}
 			return v
 		}
-		e.unsupported(st, "float to int conversion")
+		if wt, st2, ok := intWidth(to); ok {
+			f := v.(FloatV)
+			if f.T == nil {
+				e.unsupported(st, "float to int conversion (only float64 is encoded)")
+			}
+			if st2 {
+				return Extract(FP("fp.f2s", 64, f.T), wt-1, 0)
+			}
+			return Extract(FP("fp.f2u", 64, f.T), wt-1, 0)
+		}
+		e.unsupported(st, "float conversion")
 	}
 	// string <-> []byte / []rune
 	if isString(from) {
@@ -1116,6 +1171,13 @@ func (e *Engine) unop(st *State, fr *Frame, x *ssa.UnOp) {
 	case token.NOT:
 		e.setReg(fr, x, Not(e.getTerm(st, fr, x.X)))
 	case token.SUB:
+		if f, ok := e.get(st, fr, x.X).(FloatV); ok {
+			if f.T == nil {
+				e.unsupported(st, "floating point negation (only float64 is encoded)")
+			}
+			e.setReg(fr, x, FloatV{T: FP("fp.neg", 64, f.T)})
+			return
+		}
 		t := e.getTerm(st, fr, x.X)
 		e.setReg(fr, x, BinBV("bvsub", BVu(0, t.W), t))
 	case token.XOR:
